@@ -1,5 +1,5 @@
 import NauyacaVerif.Drv.Common
-import NauyacaVerif.Fs.TreeOS
+import NauyacaVerif.Fs.UploadTree
 import NauyacaVerif.Fs.UploadReq
 namespace NauyacaVerif.Drv.UploadD
 open NauyacaVerif.Drv Fs
@@ -73,7 +73,7 @@ def handle : List String → Option String
     match parseCfg cs, parseFault fault with
     | some c, some f =>
       let tr := parseTree ts
-      let os : UOS := { toOS := treeOS tr [], lexists := fun p => (tr.lstat p).isSome }
+      let os : UOS := treeUOS tr
       let l := cpsChars line
       let b := unhexS content
       if mode == "direct" then
